@@ -511,6 +511,8 @@ impl Scenario for IoFd {
             let verdicts = gen_verdicts(if exact { blen + 6 } else { 1 });
             cx().sys.io_script = verdicts.iter().copied().collect();
             cx().sys.io_log.clear();
+            // no correct loop needs more calls than bytes plus scripted outcomes
+            cx().sys.io_call_cap = Some(blen + verdicts.len() + 16);
             let stamp = call * 5 + 3;
             cx().mode = Mode::Actor;
             cx().op_begin(call as u64);
@@ -550,6 +552,7 @@ impl Scenario for IoFd {
             cx().op_end(call as u64, 0);
             cx().mode = Mode::Setup;
             cx().sys.io_script.clear();
+            cx().sys.io_call_cap = None;
             let calls = std::mem::take(&mut cx().sys.io_log);
             let after = vb.contents();
             let bufaddr = vb.ptr as usize;
@@ -561,7 +564,11 @@ impl Scenario for IoFd {
                 cx().violate("C13", "C13/frame", fp("memory beyond the buffer"), format!("call {} {}: {}", call, desc, f));
             }
             if let R::Panic(m) = &res {
-                cx().violate("C13", "C13/panic", fp("panic"), format!("call {} {}: {}", call, desc, m));
+                if m == "Budget" {
+                    cx().violate("C13", "C13/liveness", fp("no result"), format!("call {} {}: still issuing system calls after {} of them; std's loop ends on the first outcome that is neither progress nor EINTR", call, desc, calls.len()));
+                } else {
+                    cx().violate("C13", "C13/panic", fp("panic"), format!("call {} {}: {}", call, desc, m));
+                }
                 break;
             }
             // ---- reference: what std's impls do with the same outcome script ----------------------
